@@ -3,3 +3,5 @@
 package main
 
 func t1Internal(f []string) (string, bool) { return "", false }
+
+func runT2(in, out string) error { return nil }
